@@ -34,3 +34,36 @@ package db
 //@   option trusted interface
 //@   ensures result0 == @select(@select(ghost(kvhas), ref(this)), bytes(key)) && result1 == nil
 //@   modifies nothing
+
+// Write batches (C17): bpend[b][k] - key k has been put into batch b since its last Reset; bsize[b] - the
+// accumulated value size; btarget[b] - the database the batch writes to (fixed when the batch is created).
+// Write makes every pending key present in the target database; Reset forgets the pending keys.
+//@ ghost bpend (Array Int (Array Bytes Bool))
+//@ ghost bsize (Array Int Int)
+//@ ghost btarget (Array Int Int)
+
+//@ func Batch.Put
+//@   option trusted interface
+//@   ensures result == nil
+//@   ensures ghost(bpend) == @store(old(ghost(bpend)), ref(this), @store(@select(old(ghost(bpend)), ref(this)), old(bytes(key)), true))
+//@   ensures ghost(bsize) == @store(old(ghost(bsize)), ref(this), @select(old(ghost(bsize)), ref(this)) + Z(len(value)))
+//@   modifies ghost(bpend), ghost(bsize)
+
+//@ func Batch.ValueSize
+//@   option trusted interface
+//@   ensures Z(result) == @select(ghost(bsize), ref(this))
+//@   modifies nothing
+
+//@ func Batch.Write
+//@   option trusted interface
+//@   ensures result == nil
+//@   ensures [flushed] forall k Bytes :: @select(@select(ghost(kvhas), @select(ghost(btarget), ref(this))), k) == (@select(@select(old(ghost(kvhas)), @select(ghost(btarget), ref(this))), k) || @select(@select(ghost(bpend), ref(this)), k))
+//@   ensures [others]  forall d Int :: d != @select(ghost(btarget), ref(this)) ==> @select(ghost(kvhas), d) == @select(old(ghost(kvhas)), d)
+//@   modifies ghost(kv), ghost(kvhas)
+
+//@ func Batch.Reset
+//@   option trusted interface
+//@   ensures [empty]  forall k Bytes :: !@select(@select(ghost(bpend), ref(this)), k)
+//@   ensures [others] forall b Int :: b != ref(this) ==> @select(ghost(bpend), b) == @select(old(ghost(bpend)), b)
+//@   ensures [size]   ghost(bsize) == @store(old(ghost(bsize)), ref(this), Z(0))
+//@   modifies ghost(bpend), ghost(bsize)
